@@ -16,9 +16,9 @@ def obligations(tier):
     obs = []
     for k in (2, 3):
         obs.append(S.SOb('C10.nbest[G5,n=2,tags=2,k=%d]' % k, S.G5(True), 2, pruning=2, penalty='0', nbest=k))
-        obs.append(S.SOb('C10.nbest[G6,n=1,tags=4,k=%d]' % k, S.G6(), 1, pruning=4, penalty='sym', nbest=k))
+        obs.append(S.SOb('C10.nbest[G6,n=1,tags=4,k=%d]' % k, S.G6(), 1, ([(0, 3)] if q else ()), pruning=4, penalty='sym', nbest=k))
     obs.append(S.SOb('C10.nbest[G5r,n=2,tags=2,k=2]', S.G5(False), 2, pruning=2, penalty='0', nbest=2))
-    obs.append(S.SOb('C10.nbest[G4,n=2,tags=2,k=%d]' % (2 if q else 3), S.G4(), 2, pruning=2, penalty='sym', nbest=(2 if q else 3)))
+    obs.append(S.SOb('C10.nbest[G4,n=2,tags=2,k=%d]' % (2 if q else 3), S.G4(), 2, ([(1, 0)] if q else ()), pruning=2, penalty='sym', nbest=(2 if q else 3)))
     obs.append(S.SOb('C10.nbest[G1,n=3,tags=1,k=2]', S.G1(True), 3, S.one_tag(3, 3), pruning=1, penalty='0', nbest=2))
     obs.append(S.SOb('C10.nbest[G2,n=3,tags=1,k=3]', S.G1(False), 3, S.one_tag(3, 3), pruning=1, penalty='0', nbest=3))
     obs.append(S.SOb('C10.nbest[G1,n=3,tags=1,k=2,max_step=6]', S.G1(True), 3, S.one_tag(3, 3), pruning=1, penalty='0', nbest=2, max_step=6))
